@@ -50,6 +50,7 @@ class ParameterItem(EFLRItem, DimensionedItem):
                     raise ValueError(f"{self} does not have any zones defined, so only a single value is permitted; "
                                      f"got {cv}: {self.values.value}")
 
+        self._forget_dimension_from_values()
         self._check_axis_vs_dimension()
         self._check_or_set_value_dimensionality(self.values.value)
 
